@@ -133,28 +133,38 @@ func runC10(c *Ctx) {
 			c.obI("R10.2", st, "foreign-raw-query", false, "only buildHTTP assigns the query", "store in "+fnName(fn))
 		}
 	}
-	gq := callsIn(f, "(*rt/client.request).GetQueryParams")
+	// the caller's parameters: the GetQueryParams() snapshot, or the request's own query map read directly
+	isCallerParams := func(v ssa.Value) bool {
+		if ok, _ := allOrigins(v, oCall(-1, "(*rt/client.request).GetQueryParams")); ok {
+			return true
+		}
+		return vFieldLoad(clientReqT, "query", nil)(v) || vFieldLoadO(clientReqT, "query")(v)
+	}
 	sq := callsIn(f, "(*rt/client.request).SetQueryParam")
-	c.obF("R10.2", f, "merges-static-query", len(gq) == 1 && len(sq) == 1, "static query parameters are merged into the caller's", fmt.Sprintf("%d/%d", len(gq), len(sq)))
-	if len(gq) == 1 && len(sq) == 1 {
-		orig := gq[0].Value()
+	var tests []*ssa.Lookup
+	for _, in := range instrs(f) {
+		if lk, ok := in.(*ssa.Lookup); ok && lk.CommaOk && isCallerParams(lk.X) {
+			tests = append(tests, lk)
+		}
+	}
+	c.obF("R10.2", f, "merges-static-query", len(tests) >= 1 && len(sq) == 1, "static query parameters are merged into the caller's", fmt.Sprintf("%d presence tests/%d SetQueryParam", len(tests), len(sq)))
+	if len(tests) >= 1 && len(sq) == 1 {
 		absent := factBool(func(v ssa.Value) bool {
 			ex, ok := v.(*ssa.Extract)
 			if !ok || ex.Index != 1 {
 				return false
 			}
 			lk, ok := ex.Tuple.(*ssa.Lookup)
-			return ok && lk.CommaOk && lk.X == orig
+			return ok && lk.CommaOk && isCallerParams(lk.X)
 		}, false)
 		c.obI("R10.2", sq[0], "caller-parameters-win", guardedBy(sq[0], nil, absent), "a static (pattern/base path) query parameter is set only when the caller's parameters do not contain that NAME (key presence, whatever its value — an explicitly empty value still wins)", "the static value can override a parameter the caller has set")
 		// the key tested is the key being set
 		_, a := callArgs(sq[0].Common())
-		for _, in := range instrs(f) {
-			if lk, ok := in.(*ssa.Lookup); ok && lk.X == orig {
-				c.obI("R10.2", lk, "same-name-tested", lk.Index == a[0], "the name tested is the name being set", "")
-			}
+		for _, lk := range tests {
+			c.obI("R10.2", lk, "same-name-tested", lk.Index == a[0], "the name tested is the name being set", "")
 		}
 	}
+	ruleQuerySnapshotAfterAuth(c, "R10.2")
 	// pattern over base path
 	dels := callsIn(f, "(net/url.Values).Del")
 	addsq := callsIn(f, "(net/url.Values).Add")
